@@ -65,6 +65,8 @@ type ptr struct {
 	resType  string
 	known    map[string]bool // translated function names in this package (plain functions)
 	structs  map[string]*types.Struct
+	extra    []string // helper definitions translated on demand, to be emitted before the definition in progress
+	depth    int
 }
 
 func leanIntType(t types.Type) (string, bool) {
@@ -369,6 +371,11 @@ func (t *ptr) call(c *ast.CallExpr) string {
 				return "({} : " + sn + ")"
 			}
 		}
+		if obj, ok := t.info.Uses[f].(*types.Func); ok && obj.Pkg() == t.p.Types && !t.known[f.Name] {
+			// a helper of the same package that is not in pureList (e.g. one introduced by a refactoring): translate
+			// it on demand, ahead of its caller
+			t.onDemand(f.Name)
+		}
 		if obj, ok := t.info.Uses[f].(*types.Func); ok && obj.Pkg() == t.p.Types && t.known[f.Name] {
 			var args []string
 			for _, a := range c.Args {
@@ -647,6 +654,29 @@ func findFunc(p *packages.Package, recv, name string) *ast.FuncDecl {
 	return nil
 }
 
+// onDemand translates the plain function `name` of the current package while another function is being translated;
+// the caller's translation state is saved and restored. On success the definition is queued in t.extra.
+func (t *ptr) onDemand(name string) {
+	if t.depth > 4 {
+		return
+	}
+	fd := findFunc(t.p, "", name)
+	if fd == nil || fd.Body == nil {
+		return
+	}
+	saved := *t
+	t.depth++
+	d, err := t.translate(fd, pureSpec{t.p.Types.Name(), "", name})
+	extra, structs, known := t.extra, t.structs, t.known
+	*t = saved
+	t.extra, t.structs, t.known = extra, structs, known
+	if err == nil {
+		t.extra = append(t.extra, d)
+		t.known[name] = true
+		rep.Translated = append(rep.Translated, t.p.Types.Name()+"."+name+" (on demand)")
+	}
+}
+
 func (t *ptr) translate(fd *ast.FuncDecl, sp pureSpec) (def string, err error) {
 	defer func() {
 		if r := recover(); r != nil {
@@ -763,6 +793,8 @@ func genPure(pk map[string]*packages.Package) string {
 				t.known[sp.name] = true
 			}
 			rep.Translated = append(rep.Translated, key)
+			defs = append(defs, t.extra...)
+			t.extra = nil
 			defs = append(defs, d)
 		}
 		if len(defs) == 0 {
